@@ -643,4 +643,73 @@ theorem C12_full_flags {w : Wl} (hf : Flat w.v) (now : Nat) :
     simp only [qIsActive, him, ht, Bool.false_eq_true, if_false]
 
 
+/-! ## Non-vacuity: a concrete single-stage list history (kernel-evaluated) -/
+
+def exG11 : Nat := Gen.sg_utils_GENESIS_MINT_START_TIME
+
+def exMsgPlain : InstMsg :=
+  { admins := [10], adminsMutable := true, start := exG11 + 100, end_ := exG11 + 200, mintPrice := ⟨0, 5⟩, perAddr := 2,
+    memberLimit := 999, whaleCap := none, members := [(21, 0), (20, 0), (21, 0)], stages := [], stageMembers := [], roots := [],
+    uriOk := true, uris := none, discountBps := none }
+
+def exOps11 : List Op :=
+  [.fund 10 ⟨0, 1000000000⟩, .fund 10 ⟨1, 50⟩,
+   .instantiate Variant.plain 10 [⟨0, 100000000⟩] 1000 exMsgPlain,
+   .exec 10 [⟨0, 5⟩, ⟨1, 7⟩] (.addMembers 0 [(22, 0), (20, 0)]),
+   .exec 30 [] (.addMembers 0 [(23, 0)]),
+   .exec 30 [⟨0, 100000000⟩] (.increaseMemberLimit 1001),
+   .exec 10 [⟨0, 100000000⟩] (.increaseMemberLimit 1001),
+   .exec 10 [] (.updateStartTime (exG11 + 150)),
+   .setTime (exG11 + 150),
+   .exec 10 [] (.removeMembers 0 [20]),
+   .exec 10 [] (.updateEndTime (exG11 + 160)),
+   .exec 10 [] (.updateEndTime (exG11 + 170))]
+
+/-- duplicates deduplicated at instantiate, an existing member skipped by `AddMembers`, a stranger refused (and too poor to raise
+the limit), the limit raised across a thousand boundary for exactly 100 STARS, the start moved, after the start no removal and the
+end only brought forward; the 5 ustars + 7 of another denom attached to `AddMembers` stay in the contract (known finding), every
+fee left it -/
+example : ((run (init exG11) exOps11).wl.map fun w =>
+      (w.numMembers, w.members, w.memberLimit, w.start - exG11, w.end_ - exG11, w.g.feesPaid, w.g.burned + w.g.pooled,
+       (run (init exG11) exOps11).bank.bal w.self 0, (run (init exG11) exOps11).bank.bal w.self 1)) =
+    some (3, [(20, 0), (21, 0), (22, 0)], 1001, 150, 160, 200000000, 200000000, 5, 7) := by rfl
+
+/-- the first instantiate-and-add prefix of that history is a clean run (hypothesis of `C11_full_refines`) -/
+example : CleanRun (init exG11) (exOps11.take 4) := by
+  simp only [exOps11, List.take, CleanRun, Clean]
+  refine ⟨fun w h => (by cases h), fun w h => (by cases h), ⟨(by decide), (by decide), fun d => ?_⟩, ?_, trivial⟩
+  · simp [step', step, init, emptyBank, MintPay.Bank.fund, MintPay.Bank.credit]
+  · intro w hw
+    have : (step' (step' (step' (init exG11) (.fund 10 ⟨0, 1000000000⟩)) (.fund 10 ⟨1, 50⟩))
+        (.instantiate Variant.plain 10 [⟨0, 100000000⟩] 1000 exMsgPlain)).wl.map (·.self) = some 1000 := by rfl
+    rw [hw] at this
+    simp at this
+    rw [this]; decide
+
+example : Flat Variant.plain ∧ Flat Variant.flexV ∧ Flat Variant.merkle :=
+  ⟨⟨rfl, by decide⟩, ⟨rfl, by decide⟩, ⟨rfl, by decide⟩⟩
+
+/-- hypotheses of `C12_full_started_frozen` on that history: after the clock reached the start, the schedule is well-formed and
+started, and the rest of the history has no re-instantiate and a monotone clock -/
+example : ∃ w, (run (init exG11) (exOps11.take 9)).wl = some w ∧ Flat w.v ∧
+    (WlSchedule.GENESIS ≤ w.start ∧ w.start ≤ w.end_) ∧ w.start ≤ (run (init exG11) (exOps11.take 9)).now ∧
+    NoInst (exOps11.drop 9) ∧ ClockMono (run (init exG11) (exOps11.take 9)).now (exOps11.drop 9) := by
+  have hI := C12_full_wellformed (init exG11) (fun w hw => (by cases hw)) (exOps11.take 9)
+  cases hw : (run (init exG11) (exOps11.take 9)).wl with
+  | none =>
+    have : ((run (init exG11) (exOps11.take 9)).wl.map fun w => w.numMembers) = some 3 := by rfl
+    rw [hw] at this; cases this
+  | some w =>
+    have hv : ((run (init exG11) (exOps11.take 9)).wl.map fun w => (w.v == Variant.plain, w.start)) = some (true, exG11 + 150) := by rfl
+    rw [hw] at hv
+    simp only [Option.map_some, Option.some.injEq, Prod.mk.injEq, beq_iff_eq] at hv
+    have hf : Flat w.v := by rw [hv.1]; exact ⟨rfl, by decide⟩
+    have hnow : (run (init exG11) (exOps11.take 9)).now = exG11 + 150 := by rfl
+    refine ⟨w, rfl, hf, hI w hw hf, by rw [hnow, hv.2]; exact Nat.le_refl _, ?_, ?_⟩
+    · intro op hop
+      simp only [exOps11, List.drop, List.mem_cons, List.not_mem_nil, or_false] at hop
+      rcases hop with rfl | rfl | rfl <;> (intro v sender funds self m h; cases h)
+    · rw [hnow]
+      simp [exOps11, ClockMono, opTimeC]
+
 end LP
